@@ -50,6 +50,7 @@ def run(ctx):
     vals = defaults(ctx, fn, attrs)
     current_color(ctx, fn, attrs, vals)
     paint(ctx)
+    own_fallback(ctx)
 
 
 def classify_key(node, fmt_of):
@@ -621,3 +622,20 @@ def paint(ctx):
         ok = got == want or got == alt
     ctx.ob("R14.5", "GraphicObject.render[percentage stroke width]", ok, detail, rn.lineno,
            "a percentage stroke width refers to the normalised diagonal sqrt((w^2 + h^2)/2) of the viewport (SVG 1.1 section 7.10)")
+
+
+def own_fallback(ctx):
+    """GraphicObject.property_by_values reads each paint property twice: the internal key first, then the presentation attribute
+    with the first result as fallback (`x = values.get("x_internal"); x = values.get(ATTR_X, x)`).  The fallback of a
+    property must be that property's own earlier value: `fill_opacity = values.get(FILL_OPACITY, stroke_opacity)` makes a missing
+    fill-opacity inherit the stroke's."""
+    fn = ctx.fn("GraphicObject.property_by_values", "R14.3")
+    n = 0
+    for st in stmts_in(fn.body):
+        if isinstance(st, ast.Assign) and len(st.targets) == 1 and isinstance(st.targets[0], ast.Name) and isinstance(st.value, ast.Call) and isinstance(st.value.func, ast.Attribute) \
+                and st.value.func.attr == "get" and len(st.value.args) == 2 and isinstance(st.value.args[1], ast.Name):
+            n += 1
+            tgt, dflt = st.targets[0].id, st.value.args[1].id
+            ctx.ob("R14.3", "GraphicObject.property_by_values[%s falls back to itself]" % tgt, tgt == dflt, "default %s" % dflt, st.lineno,
+                   "each paint property cascades on its own: a missing value keeps what was inherited for THAT property")
+    ctx.need(n >= 2, "R14.3", "two-step reads of paint properties not found (%d)" % n)
